@@ -111,7 +111,7 @@ def load_specs(spec_dir=None):
                 if m:
                     sect = (m.group(1), int(m.group(2)), None)
                     continue
-                m = re.match(r'(sink-new|sink-done|call-head|call-tail)$', parts)
+                m = re.match(r'(sink-new|sink-done|call-head|call-tail|stub-assumes)$', parts)
                 if m:
                     sect = ('section', m.group(1), None)
                     continue
@@ -354,6 +354,9 @@ def emit_fn(spec, mode, probe=False):
         sig += ','
     contract = spec.contract
     if mode == 'stub':
+        # `--- stub-assumes`: further `ensures` clauses that only the STUB of a verified function carries - facts its callers' units
+        # ASSUME about it and its own unit does not prove (e.g. a name for its result); they continue the contract's ensures list
+        contract = contract + spec.sections.get('stub-assumes', '')
         txt = '    #[verifier::external_body]\n' + sig + '\n' + contract + '    { unimplemented!() }\n'
         em.rules = rw.log
         em.clauses = count_clauses(contract, {}, [])
